@@ -299,7 +299,7 @@ class Check(PropertyCheck):
     parallel = False
 
     def setup(self, tier):
-        self.parallel = tier == "thorough"     # a pool only pays off for the long run
+        self.parallel = False      # serial in every tier: forked pool workers occasionally dead-lock under load (60 s case time-outs)
         self.known_selftest()
 
     def known_selftest(self):
